@@ -251,7 +251,14 @@ def check_files(acc, b, g, assign):
                     got = [r[0] for r in r_delta[1]]
                     if set(got) != exp or len(got) != len(set(got)):
                         acc.count("delta_listing_differs_from_tree_comparison_reference:" + direction)
-                    # the two algorithms: same mainline revisions
+                    # the two algorithms: same mainline revisions.  For an end revision that was itself
+                    # merged, "mainline" has two readings (delta matching with levels=1 walks the end's
+                    # left-hand line, the per-file-graph path keeps the depths of the branch's own
+                    # mainline): counted, not judged - like the ranges with a merged end in the graph part
+                    if e not in g.lh:
+                        if [r[0] for r in r_delta[1] if r[0] in set(lhe)] != [r[0] for r in r_graph[1] if r[0] in set(lhe)]:
+                            acc.count("merged_end_left_hand_listing_differs_between_algorithms")
+                        continue
                     main = set(lhe)
                     m_delta = [r[0] for r in r_delta[1] if r[0] in main]
                     m_graph = [r[0] for r in r_graph[1] if r[0] in main]
@@ -409,6 +416,8 @@ def run(ctx):
         "violations_raw": acc.counters.get("violations_raw", 0) + acc2.counters.get("violations_raw", 0),
         "start_not_ancestor_but_listed": acc.counters.get("start_not_ancestor_listed", 0),
         "other_range_forward_differs_from_rbd_of_reverse": acc.counters.get("other_range_forward_differs_from_rbd_of_reverse", 0),
+        "merged_end_left_hand_listing_differs_between_algorithms": acc2.counters.get("merged_end_left_hand_listing_differs_between_algorithms", 0),
+        "delta_listing_differs_from_tree_comparison_reference": sum(v for k, v in acc2.counters.items() if k.startswith("delta_listing_differs")),
         "samples": acc.samples[:2] + acc2.samples[:1],
         "exhaustive": True,
     }
